@@ -75,8 +75,8 @@ class BigSum:
         rs = z3.RealSort() if real else z3.IntSort()
         self.f = z3.Function(name, *[s for _, s in params], self.set_sort, rs)
         ps = [z3.Const(f"{name}!{n}", s) for n, s in params]
-        S = z3.Const(f"{name}!S", self.set_sort)
-        k = z3.Const(f"{name}!k", key_sort)
+        S = z3.Const(f"{name}!!set", self.set_sort)
+        k = z3.Const(f"{name}!!key", key_sort)
         zero = z3.RealVal(0) if real else z3.IntVal(0)
         empty = z3.K(key_sort, z3.BoolVal(False))
         e = self.f(*ps, empty) == zero
@@ -181,8 +181,15 @@ def card_facts(S):
     _lemma_uses.append(("card-facts", "Finset.card_eq_zero"))
     ks = S.sort().domain()
     c = card(S)
+    x = z3.Const("cf!x!" + _sortkey(ks), ks)
+    y = z3.Const("cf!y!" + _sortkey(ks), ks)
+    _lemma_uses.append(("card<=1 / card>1", "Finset.card_le_one, Finset.one_lt_card"))
     return [c >= 0,
-            z3.Implies(fin(S), (c == 0) == (S == z3.K(ks, z3.BoolVal(False))))]
+            z3.Implies(fin(S), (c == 0) == (S == z3.K(ks, z3.BoolVal(False)))),
+            z3.Implies(z3.And(fin(S), c <= 1),
+                       z3.ForAll([x, y], z3.Implies(z3.And(z3.Select(S, x), z3.Select(S, y)), x == y))),
+            z3.Implies(z3.And(fin(S), c > 1),
+                       z3.Exists([x, y], z3.And(z3.Select(S, x), z3.Select(S, y), x != y)))]
 
 
 def nodup_seq_card(seq, S):
@@ -194,6 +201,18 @@ def nodup_seq_card(seq, S):
     members = z3.ForAll([i], z3.Implies(z3.And(0 <= i, i < n), z3.Select(S, seq.arr[i])))
     distinct = z3.ForAll([i, j], z3.Implies(z3.And(0 <= i, i < j, j < n), seq.arr[i] != seq.arr[j]))
     return z3.Implies(z3.And(fin(S), members, distinct), n <= card(S))
+
+
+def subset_facts(sub, sup):
+    """sub is (by construction) a subset of sup: finiteness and cardinality carry over
+    (Set.Finite.subset, Finset.card_le_card)"""
+    _lemma_uses.append(("subset", "Set.Finite.subset, Finset.card_le_card"))
+    return [z3.Implies(fin(sup), fin(sub)), z3.Implies(fin(sup), card(sub) <= card(sup))]
+
+
+def union_facts(a, b, u):
+    _lemma_uses.append(("union", "Set.Finite.union"))
+    return [z3.Implies(z3.And(fin(a), fin(b)), fin(u))]
 
 
 def add_axiom(owner, formula, why):
@@ -233,3 +252,22 @@ def relevant_axioms(formulas):
             _symbols(ax, syms, seen)
             changed = True
     return chosen
+
+
+class PrefixSum:
+    """F(params..., n) = sum_{0 <= i < n} term(params..., i)  (recursive definition;
+    unfolding instances are supplied explicitly by `step`, Finset.sum_range_succ)."""
+
+    def __init__(self, name, params, term):
+        self.name, self.params, self.term = name, params, term
+        self.f = z3.Function(name, *[s for _, s in params], z3.IntSort(), z3.IntSort())
+        ps = [z3.Const(f"{name}!{n}", s) for n, s in params]
+        e = self.f(*ps, z3.IntVal(0)) == 0
+        _axioms.append((name, z3.ForAll(ps, e) if ps else e, "Finset.sum_range_zero"))
+
+    def __call__(self, *args):
+        return self.f(*args)
+
+    def step(self, p, i):
+        _lemma_uses.append(("unfold:" + self.name, "Finset.sum_range_succ"))
+        return z3.Implies(i >= 0, self.f(*p, i + 1) == self.f(*p, i) + self.term(*p, i))
